@@ -124,3 +124,122 @@ def contentFlat : List (Scal × Op × Scal) → List Tok
 def LField.content (f : LField) : Scal × Op × Scal := (f.key, f.op, f.val)
 
 end Jomini.TextTape
+
+/-! ### abstract documents, fragment 2: nested objects (any depth) with their layout -/
+namespace Jomini.TextTape
+
+mutual
+/-- a value with its layout: a scalar behind blanks `g`, or a non-empty object
+`g { g0 key g1 op value fields… gc }` (the first field is explicit: it is the one ParseOpen sees). -/
+inductive LVal
+  | scal (g : Bytes) (s : Scal)
+  | obj (g g0 : Bytes) (key : Scal) (g1 : Bytes) (op : Op) (v : LVal) (rest : LFields) (gc : Bytes)
+/-- further fields `g0 key g1 op value`. -/
+inductive LFields
+  | nil
+  | cons (g0 : Bytes) (key : Scal) (g1 : Bytes) (op : Op) (v : LVal) (rest : LFields)
+end
+
+mutual
+def renderV : LVal → Bytes
+  | .scal g s => g ++ s.text
+  | .obj g g0 k g1 o v rest gc =>
+    g ++ 123 :: (g0 ++ (k.text ++ (g1 ++ (o.text ++ (renderV v ++ (renderF rest ++ (gc ++ [125])))))))
+def renderF : LFields → Bytes
+  | .nil => []
+  | .cons g0 k g1 o v rest => g0 ++ (k.text ++ (g1 ++ (o.text ++ (renderV v ++ renderF rest))))
+end
+
+mutual
+/-- layout validity of a value followed by `after`. -/
+def ValidV : LVal → Bytes → Prop
+  | .scal g s, after => Blank g ∧ s.Valid ∧ (s.quoted = false → StartsBoundary after)
+  | .obj g g0 k g1 o v rest gc, after =>
+    Blank g ∧ Blank g0 ∧ Blank g1 ∧ Blank gc ∧ k.Valid ∧
+    (k.quoted = false → StartsBoundary (g1 ++ o.text)) ∧
+    ValidV v (renderF rest ++ (gc ++ 125 :: after)) ∧ ValidF rest (gc ++ 125 :: after)
+def ValidF : LFields → Bytes → Prop
+  | .nil, _ => True
+  | .cons g0 k g1 o v rest, after =>
+    Blank g0 ∧ Blank g1 ∧ k.Valid ∧ (k.quoted = false → StartsBoundary (g1 ++ o.text)) ∧
+    ValidV v (renderF rest ++ after) ∧ ValidF rest after
+end
+
+mutual
+/-- number of tape tokens. -/
+def cntV : LVal → Nat
+  | .scal _ _ => 1
+  | .obj _ _ _ _ o v rest _ => 2 + (1 + o.toks.length + cntV v) + cntF rest
+def cntF : LFields → Nat
+  | .nil => 0
+  | .cons _ _ _ o v rest => (1 + o.toks.length + cntV v) + cntF rest
+end
+
+mutual
+/-- the expected tape of a value whose first token gets index `base` and which is followed by
+`after` in the input. -/
+def tapeV : LVal → Nat → Bytes → List Tok
+  | .scal _ s, _, after => [s.tok after]
+  | .obj _ _ k g1 o v rest gc, base, after =>
+    let tail := renderF rest ++ (gc ++ 125 :: after)
+    [.object (base + 1 + (1 + o.toks.length + cntV v) + cntF rest) false] ++
+      ([k.tok (g1 ++ (o.text ++ (renderV v ++ tail)))] ++ o.toks ++
+        tapeV v (base + 1 + 1 + o.toks.length) tail ++
+        tapeF rest (base + 1 + (1 + o.toks.length + cntV v)) (gc ++ 125 :: after)) ++
+      [.endTok base]
+def tapeF : LFields → Nat → Bytes → List Tok
+  | .nil, _, _ => []
+  | .cons _ k g1 o v rest, base, after =>
+    [k.tok (g1 ++ (o.text ++ (renderV v ++ (renderF rest ++ after))))] ++ o.toks ++
+      tapeV v (base + 1 + o.toks.length) (renderF rest ++ after) ++
+      tapeF rest (base + (1 + o.toks.length + cntV v)) after
+end
+
+mutual
+/-- main-loop iterations the value takes. -/
+def stepsV : LVal → Nat
+  | .scal _ _ => 1
+  | .obj _ _ _ _ _ v rest _ => 3 + stepsV v + stepsF rest + 1
+def stepsF : LFields → Nat
+  | .nil => 0
+  | .cons _ _ _ _ v rest => 2 + stepsV v + stepsF rest
+end
+
+mutual
+/-- the layout-free content: keys, operators, scalars, object boundaries. -/
+inductive CVal
+  | scal (s : Scal)
+  | obj (fs : CFields)
+inductive CFields
+  | nil
+  | cons (key : Scal) (op : Op) (v : CVal) (rest : CFields)
+end
+
+mutual
+def contentV : LVal → CVal
+  | .scal _ s => .scal s
+  | .obj _ _ k _ o v rest _ => .obj (.cons k o (contentV v) (contentFs rest))
+def contentFs : LFields → CFields
+  | .nil => .nil
+  | .cons _ k _ o v rest => .cons k o (contentV v) (contentFs rest)
+end
+
+mutual
+/-- the position-free tape of a content tree whose first token gets index `base`. -/
+def ctapeV : CVal → Nat → List Tok
+  | .scal s, _ => [(s.tok []).erase]
+  | .obj fs, base => [.object (base + 1 + ccntF fs) false] ++ ctapeF fs (base + 1) ++ [.endTok base]
+def ctapeF : CFields → Nat → List Tok
+  | .nil, _ => []
+  | .cons k o v rest, base =>
+    [(k.tok []).erase] ++ o.toks ++ ctapeV v (base + 1 + o.toks.length) ++
+      ctapeF rest (base + (1 + o.toks.length + ccntV v))
+def ccntV : CVal → Nat
+  | .scal _ => 1
+  | .obj fs => 2 + ccntF fs
+def ccntF : CFields → Nat
+  | .nil => 0
+  | .cons _ o v rest => (1 + o.toks.length + ccntV v) + ccntF rest
+end
+
+end Jomini.TextTape
